@@ -87,6 +87,12 @@ func newC18Server() *c18Server {
 		if st.Mode == "delayed" {
 			time.Sleep(15 * time.Millisecond)
 		}
+		if st.Mode == "stall" { // far beyond the client's per-attempt limit (c18AttemptTimeouts)
+			select {
+			case <-time.After(400 * time.Millisecond):
+			case <-r.Context().Done():
+			}
+		}
 		if st.Mode == "nobody" {
 			w.WriteHeader(st.Status) // a response without any body (http.NoBody on the client side)
 			return
@@ -98,6 +104,18 @@ func newC18Server() *c18Server {
 		payload = append(payload, bytes.Repeat([]byte{'x'}, st.Size)...)
 		w.Header().Set("Content-Length", strconv.Itoa(len(payload)))
 		w.WriteHeader(st.Status)
+		if st.Mode == "stallbody" {
+			// headers and the first bytes arrive, then the body stalls for as long as the client keeps the connection
+			w.Write(payload[:min(len(payload), 64)])
+			if fl, ok := w.(http.Flusher); ok {
+				fl.Flush()
+			}
+			select {
+			case <-r.Context().Done():
+			case <-time.After(12 * time.Second):
+			}
+			return
+		}
 		if st.Mode == "streamed" {
 			fl, _ := w.(http.Flusher)
 			for i := 0; i < len(payload); i += len(payload)/4 + 1 {
@@ -200,7 +218,7 @@ func retryable(st srvStep) bool {
 var c18Ids atomic.Int64
 
 func checkC18(rep *vk.Report) {
-	rep.Rule = "HTTP: calls through failsafehttp.NewRoundTripper and NewRequest against a loopback server that records every attempt (method, URI, header, body length+SHA-256, arrival time) and follows a per-call script (statuses 200/400/404/418/429/500/501/502/503/504, Retry-After absent/0/1, delayed, streamed, hijack-and-close); body kinds nil/NoBody/*bytes.Buffer/*bytes.Reader/*strings.Reader/file/plain reader/empty x sizes 1B-1MiB; request context background/TODO/cancellable/values/deadline x executor context none/cancellable/values; stacks of retry (failsafehttp.RetryPolicyBuilder), timeout, hedge, breaker, fallback. Oracles: every attempt identical to the original request; attempt count = documented retry rule; gap >= Retry-After seconds on 429/503; returned response is the last attempt's and its body reads to EOF; the context seen by an instrumented inner RoundTripper carries the request context's values and deadline and is done once the caller cancels. A firing hedge with a large body checks overlapping attempts. gRPC: client and server interceptors driven with fake invoker/handler for all 17 status codes: arguments, reply, error, options passed through unchanged, metadata/values/deadline visible, retries only for Unavailable/DeadlineExceeded/ResourceExhausted. Non-trivial: >=2 attempts, a non-background context, or a body; distinct by (entry, body kind, size class, contexts, stack, script statuses)."
+	rep.Rule = "HTTP: calls through failsafehttp.NewRoundTripper and NewRequest against a loopback server that records every attempt (method, URI, header, body length+SHA-256, arrival time) and follows a per-call script (statuses 200/400/404/418/429/500/501/502/503/504, Retry-After absent/0/1, delayed, streamed, hijack-and-close); body kinds nil/NoBody/*bytes.Buffer/*bytes.Reader/*strings.Reader/file/plain reader/empty x sizes 1B-1MiB; request context background/TODO/cancellable/values/deadline x executor context none/cancellable/values; stacks of retry (failsafehttp.RetryPolicyBuilder), timeout, hedge, breaker, fallback. Oracles: every attempt identical to the original request; attempt count = documented retry rule; gap >= Retry-After seconds on 429/503; returned response is the last attempt's and its body reads to EOF; the context seen by an instrumented inner RoundTripper carries the request context's values and deadline and is done once the caller cancels. A firing hedge with a large body checks overlapping attempts. Attempts ending in net/http's own per-attempt limits (Transport.ResponseHeaderTimeout, Client.Timeout with NewRequest) while the server holds the headers back are retried like any other error (lower bound on the attempts the server sees). gRPC: client and server interceptors driven with fake invoker/handler for all 17 status codes: arguments, reply, error, options passed through unchanged, metadata/values/deadline visible, retries only for Unavailable/DeadlineExceeded/ResourceExhausted. Non-trivial: >=2 attempts, a non-background context, or a body; distinct by (entry, body kind, size class, contexts, stack, script statuses)."
 	rep.Assumptions = []string{
 		"A9: Retry-After is only required to be honoured on 429 and 503, integer seconds",
 		"loopback networking works in the sandbox; TLS, x509 and redirect branches of the retry predicate are not driven",
@@ -222,6 +240,13 @@ func checkC18(rep *vk.Report) {
 		}
 		c18Hedged(rep, idx, srv)
 	})
+	vk.Parallel(scale(rep, 120, 4000), 16, func(i int) {
+		idx := 5000000 + i
+		if rep.Skip(idx) {
+			return
+		}
+		c18AttemptTimeouts(rep, idx, srv)
+	})
 	ng := scale(rep, 600, 40000)
 	vk.Parallel(ng, 16, func(i int) {
 		idx := n + nh + i
@@ -234,6 +259,7 @@ func checkC18(rep *vk.Report) {
 	rep.Require("http_retry_after_gaps_checked", 5)
 	rep.Require("http_contexts_checked_non_background", 50)
 	rep.Require("grpc_calls", 100)
+	rep.Require("http_attempt_timeouts_retried", 20)
 }
 
 func c18Body(kind string, size int, idx int) (io.Reader, []byte, func()) {
@@ -280,6 +306,9 @@ func c18Stack(stack string) []failsafe.Policy[*http.Response] {
 			pols = append(pols, hedgepolicy.WithDelay[*http.Response](20*time.Second))
 		case "hedge!": // a hedge that really fires
 			pols = append(pols, hedgepolicy.BuilderWithDelay[*http.Response](4*time.Millisecond).WithMaxHedges(1).Build())
+		case "hedgec": // fires, and accepts only answers below 500: when every attempt gets a 5xx the last one to finish is returned
+			pols = append(pols, hedgepolicy.BuilderWithDelay[*http.Response](2*time.Millisecond).WithMaxHedges(2).
+				CancelIf(func(r *http.Response, err error) bool { return r != nil && r.StatusCode < 500 }).Build())
 		case "breaker":
 			pols = append(pols, circuitbreaker.Builder[*http.Response]().WithFailureThreshold(1000).Build())
 		case "fallback":
